@@ -1,1 +1,370 @@
-//! Kani harnesses (gatekeeper)
+//! Kani harnesses for `Gatekeeper` (child module of teos/src/gatekeeper.rs under cfg(kani)).
+//! Serves C09 (subscription heights), C07 (slot accounting), C06 (authentication / isolation), C08.K2.
+//!
+//! Pre-states are *arbitrary* `UserInfo` records, configuration values and heights (full u32), constrained only by
+//! the representation invariant "memory copy == DB-model copy of every user". One operation is executed and the
+//! post-condition is asserted, i.e. one inductive step from any reachable (and many unreachable) states.
+use super::*;
+use crate::responder::ConfirmationStatus;
+use crate::verif_stubs::*;
+
+pub(crate) fn any_info() -> UserInfo {
+    UserInfo::new(kani::any(), kani::any(), kani::any())
+}
+
+/// A gatekeeper with `n` registered users (ids `user(0..n)`), arbitrary records, configuration and height.
+pub(crate) fn any_gk(n: usize) -> Gatekeeper {
+    let dbm = DBM::default();
+    let mut users = HashMap::new();
+    let mut i = 0;
+    while i < n {
+        let info = any_info();
+        users.insert(user(i as u8), info);
+        dbm.store_user(user(i as u8), &info).unwrap();
+        i += 1;
+    }
+    Gatekeeper {
+        last_known_block_height: AtomicU32::new(kani::any()),
+        subscription_slots: kani::any(),
+        subscription_duration: kani::any(),
+        expiry_delta: kani::any(),
+        registered_users: Mutex::new(users),
+        dbm: Arc::new(Mutex::new(dbm)),
+    }
+}
+
+impl Gatekeeper {
+    pub(crate) fn verif_mem(&self, u: UserId) -> Option<UserInfo> {
+        self.registered_users.lock().unwrap().get(&u).cloned()
+    }
+    pub(crate) fn verif_db(&self, u: UserId) -> Option<UserInfo> {
+        self.dbm.lock().unwrap().verif_user(u)
+    }
+    pub(crate) fn verif_height(&self) -> u32 {
+        self.last_known_block_height.load(Ordering::Acquire)
+    }
+    pub(crate) fn verif_cfg(&self) -> (u32, u32, u32) {
+        (self.subscription_slots, self.subscription_duration, self.expiry_delta)
+    }
+}
+
+fn slots_spec(n: usize) -> u32 {
+    ((n + 2047) / 2048) as u32
+}
+
+// ------------------------------------------------------------------------------------------------ C09
+
+/// K1: a subscription is usable exactly while height < expiry; the error carries the stored expiry.
+#[kani::proof]
+#[kani::unwind(6)]
+fn c09_k1_expired_iff() {
+    let gk = any_gk(1);
+    let info = gk.verif_mem(user(0)).unwrap();
+    let h = gk.verif_height();
+    let r = gk.has_subscription_expired(user(0));
+    assert!(
+        r == Ok((h >= info.subscription_expiry, info.subscription_expiry)),
+        "C09.expired: expired iff height >= expiry, and the reported expiry is the stored one"
+    );
+    assert!(gk.has_subscription_expired(user(1)).is_err(), "C09.expired: unknown user is an error");
+    assert!(gk.verif_mem(user(0)) == Some(info) && gk.verif_db(user(0)) == Some(info), "C09.expired: read-only");
+    kani::cover!(h >= info.subscription_expiry, "reach-expired");
+    kani::cover!(h < info.subscription_expiry, "reach-live");
+    std::mem::forget(gk);
+}
+
+/// K2: the users selected for deletion at height h are exactly those with h >= expiry + grace (in N, no wrap).
+#[kani::proof]
+#[kani::unwind(6)]
+fn c09_k2_outdated_iff() {
+    let gk = any_gk(2);
+    let h: u32 = kani::any();
+    let i0 = gk.verif_mem(user(0)).unwrap();
+    let i1 = gk.verif_mem(user(1)).unwrap();
+    let delta = gk.verif_cfg().2 as u64;
+    let out = gk.get_outdated_users(h);
+    let e0 = (h as u64) >= i0.subscription_expiry as u64 + delta;
+    let e1 = (h as u64) >= i1.subscription_expiry as u64 + delta;
+    assert!(out.iter().any(|u| uid(u) == 0) == e0, "C09.outdated: user is outdated iff height >= expiry + grace");
+    assert!(out.iter().any(|u| uid(u) == 1) == e1, "C09.outdated: user is outdated iff height >= expiry + grace");
+    assert!(out.len() == e0 as usize + e1 as usize, "C09.outdated: nobody else is selected");
+    kani::cover!(e0 && !e1, "reach-one-outdated");
+    std::mem::forget(gk);
+}
+
+/// K3: connecting a block at height h deletes exactly the outdated users (memory and DB, with their appointments and
+/// trackers), leaves everybody else bit-identical and records h.
+#[kani::proof]
+#[kani::stub(bitcoin::block::Header::block_hash, crate::verif_stubs::block_hash_model)]
+#[kani::unwind(6)]
+fn c09_k3_purge_exact() {
+    let gk = any_gk(2);
+    let i0 = gk.verif_mem(user(0)).unwrap();
+    let i1 = gk.verif_mem(user(1)).unwrap();
+    // each user owns one appointment; user 1's appointment has a tracker
+    {
+        let dbm = gk.dbm.lock().unwrap();
+        dbm.verif_push_appointment(uuid(0), ext_appointment(0, user(0), kani::any()));
+        dbm.verif_push_appointment(uuid(1), ext_appointment(1, user(1), kani::any()));
+        dbm.verif_push_tracker(uuid(1), tracker(1, user(1), ConfirmationStatus::ConfirmedIn(kani::any())));
+    }
+    let h: u32 = kani::any();
+    let delta = gk.verif_cfg().2 as u64;
+    let e0 = (h as u64) >= i0.subscription_expiry as u64 + delta;
+    let e1 = (h as u64) >= i1.subscription_expiry as u64 + delta;
+    let txdata: Vec<(usize, &bitcoin::Transaction)> = Vec::new();
+    chain::Listen::filtered_block_connected(&gk, &crate::verif_stubs::hdr(1), &txdata, h);
+    assert!(gk.verif_height() == h, "C09.purge: the connected height is recorded");
+    let exp0 = if e0 { None } else { Some(i0) };
+    let exp1 = if e1 { None } else { Some(i1) };
+    assert!(gk.verif_mem(user(0)) == exp0 && gk.verif_mem(user(1)) == exp1,
+        "C09.purge: exactly the users with height >= expiry + grace leave memory, the others are unchanged");
+    assert!(gk.verif_db(user(0)) == exp0 && gk.verif_db(user(1)) == exp1,
+        "C09.purge: exactly the users with height >= expiry + grace leave the database, the others are unchanged");
+    let dbm = gk.dbm.lock().unwrap();
+    assert!(dbm.appointment_exists(uuid(0)) == !e0 && dbm.appointment_exists(uuid(1)) == !e1,
+        "C09.purge: a user's appointments are deleted with the user and only then");
+    assert!(dbm.tracker_exists(uuid(1)) == !e1, "C09.purge: a user's trackers are deleted with the user and only then");
+    kani::cover!(e0 && !e1, "reach-one-purged");
+    kani::cover!(!e0 && !e1, "reach-none-purged");
+    drop(dbm);
+    std::mem::forget(gk);
+}
+
+/// K4: a disconnection of the block at height h takes the gatekeeper back to h-1 and changes nothing else.
+#[kani::proof]
+#[kani::stub(bitcoin::block::Header::block_hash, crate::verif_stubs::block_hash_model)]
+#[kani::unwind(6)]
+fn c09_k4_disconnect_height() {
+    let gk = any_gk(1);
+    let i0 = gk.verif_mem(user(0)).unwrap();
+    let h: u32 = kani::any();
+    kani::assume(h >= 1); // genesis is never disconnected
+    chain::Listen::block_disconnected(&gk, &crate::verif_stubs::hdr(1), h);
+    assert!(gk.verif_height() == h - 1, "C09.disconnect: height goes back to h-1");
+    assert!(gk.verif_mem(user(0)) == Some(i0) && gk.verif_db(user(0)) == Some(i0), "C09.disconnect: users untouched");
+    // and the comparison of K1 honours it
+    let r = gk.has_subscription_expired(user(0));
+    assert!(r == Ok((h - 1 >= i0.subscription_expiry, i0.subscription_expiry)), "C09.disconnect: expiry check uses h-1");
+    kani::cover!(true, "reach");
+    std::mem::forget(gk);
+}
+
+/// K5a: registration of a new user at height h: start = h, expiry = h + duration (saturating at u32::MAX like renewals),
+/// slots = configured slots; memory == DB == receipt (also C08.K2, C07.K3).
+#[kani::proof]
+#[kani::unwind(6)]
+fn c09_k5_register_new() {
+    let gk = any_gk(1);
+    let i0 = gk.verif_mem(user(0)).unwrap();
+    let h = gk.verif_height();
+    let (slots, duration, _) = gk.verif_cfg();
+    let r = gk.add_update_user(user(1));
+    let receipt = match r {
+        Ok(x) => x,
+        Err(_) => {
+            assert!(false, "C09.register: a first registration cannot hit the slot limit");
+            return;
+        }
+    };
+    let exp = core::cmp::min(h as u64 + duration as u64, u32::MAX as u64) as u32;
+    let want = UserInfo::new(slots, h, exp);
+    assert!(gk.verif_mem(user(1)) == Some(want), "C09.register: new user gets start=h, expiry=h+duration, configured slots (memory)");
+    assert!(gk.verif_db(user(1)) == Some(want), "C09.register: new user gets start=h, expiry=h+duration, configured slots (database)");
+    assert!(receipt.user_id() == user(1) && receipt.available_slots() == slots && receipt.subscription_start() == h
+        && receipt.subscription_expiry() == exp, "C08.receipt: the registration receipt carries the persisted values");
+    assert!(gk.verif_mem(user(0)) == Some(i0) && gk.verif_db(user(0)) == Some(i0), "C06.isolation: other users untouched");
+    kani::cover!(true, "reach");
+    std::mem::forget(gk);
+}
+
+/// K5b: renewal: expiry pushed back by one duration (saturating), slots topped up (checked); on MaxSlotsReached
+/// nothing changes anywhere; memory == DB == receipt.
+#[kani::proof]
+#[kani::unwind(6)]
+fn c09_k5_renew() {
+    let gk = any_gk(2);
+    let i0 = gk.verif_mem(user(0)).unwrap();
+    let i1 = gk.verif_mem(user(1)).unwrap();
+    let (slots, duration, _) = gk.verif_cfg();
+    let r = gk.add_update_user(user(0));
+    let sum = i0.available_slots as u64 + slots as u64;
+    match r {
+        Ok(receipt) => {
+            assert!(sum <= u32::MAX as u64, "C07.renew: renewal succeeds only if the slot count fits");
+            let exp = core::cmp::min(i0.subscription_expiry as u64 + duration as u64, u32::MAX as u64) as u32;
+            let want = UserInfo::new(sum as u32, i0.subscription_start, exp);
+            assert!(gk.verif_mem(user(0)) == Some(want), "C09.renew: expiry += duration, slots += configured slots (memory)");
+            assert!(gk.verif_db(user(0)) == Some(want), "C09.renew: expiry += duration, slots += configured slots (database)");
+            assert!(receipt.user_id() == user(0) && receipt.available_slots() == want.available_slots
+                && receipt.subscription_start() == want.subscription_start
+                && receipt.subscription_expiry() == want.subscription_expiry,
+                "C08.receipt: the registration receipt carries the persisted values");
+        }
+        Err(_) => {
+            assert!(sum > u32::MAX as u64, "C07.renew: MaxSlotsReached only on overflow");
+            assert!(gk.verif_mem(user(0)) == Some(i0), "C07.renew: a refused renewal changes nothing (memory)");
+            assert!(gk.verif_db(user(0)) == Some(i0), "C07.renew: a refused renewal changes nothing (database)");
+        }
+    }
+    assert!(gk.verif_mem(user(1)) == Some(i1) && gk.verif_db(user(1)) == Some(i1), "C06.isolation: other users untouched");
+    kani::cover!(sum > u32::MAX as u64, "reach-refused");
+    kani::cover!(sum <= u32::MAX as u64, "reach-renewed");
+    std::mem::forget(gk);
+}
+
+// ------------------------------------------------------------------------------------------------ C07
+
+/// K1 is in teos-common (slot formula). K2: add_update_appointment charges exactly the difference.
+/// `old`: None = new appointment, Some(n) = replacement of a stored appointment with an n-byte blob.
+fn add_update_appointment_step(has_old: bool) {
+    let gk = any_gk(2);
+    let i0 = gk.verif_mem(user(0)).unwrap();
+    let i1 = gk.verif_mem(user(1)).unwrap();
+    let old_len: usize = kani::any();
+    let new_len: usize = kani::any();
+    kani::assume(old_len <= MAX_BLOB && new_len <= MAX_BLOB);
+    if has_old {
+        gk.dbm.lock().unwrap().verif_push_appointment(uuid(0), ext_appointment(0, user(0), old_len));
+    }
+    let so = if has_old { slots_spec(old_len) as i64 } else { 0 };
+    let sn = slots_spec(new_len) as i64;
+    // representation invariant: what the user was granted in total fits the counter (see DESIGN F14)
+    kani::assume(i0.available_slots as i64 + so <= u32::MAX as i64);
+    let appt = ext_appointment(0, user(0), new_len);
+    let r = gk.add_update_appointment(user(0), uuid(0), &appt);
+    let diff = sn - so;
+    match r {
+        Ok(s) => {
+            assert!(diff <= i0.available_slots as i64, "C07.charge: accepted only if the balance stays non-negative");
+            let want = (i0.available_slots as i64 - diff) as u32;
+            assert!(s == want, "C07.charge: the balance told to the user is old balance - (slots(new) - slots(old))");
+            let wi = UserInfo::new(want, i0.subscription_start, i0.subscription_expiry);
+            assert!(gk.verif_mem(user(0)) == Some(wi), "C07.charge: memory holds the same balance");
+            assert!(gk.verif_db(user(0)) == Some(wi), "C07.charge: the database holds the same balance");
+        }
+        Err(_) => {
+            assert!(diff > i0.available_slots as i64, "C07.charge: refused only if slots are missing");
+            assert!(gk.verif_mem(user(0)) == Some(i0) && gk.verif_db(user(0)) == Some(i0), "C07.charge: a refusal changes nothing");
+        }
+    }
+    assert!(gk.verif_mem(user(1)) == Some(i1) && gk.verif_db(user(1)) == Some(i1), "C06.isolation: other users untouched");
+    kani::cover!(r.is_ok() && diff < 0, "reach-shrink");
+    kani::cover!(r.is_ok() && diff > 1, "reach-grow");
+    kani::cover!(r.is_err(), "reach-refused");
+    std::mem::forget(appt);
+    std::mem::forget(gk);
+}
+
+#[kani::proof]
+#[kani::unwind(6)]
+fn c07_k2_charge_new() {
+    add_update_appointment_step(false);
+}
+
+#[kani::proof]
+#[kani::unwind(6)]
+fn c07_k2_charge_update() {
+    add_update_appointment_step(true);
+}
+
+/// K4: delete_appointments: with refund every deleted appointment gives exactly its slots back to its owner (memory and
+/// DB), without refund no balance moves; the rows (and their trackers) are gone either way; bystanders untouched.
+fn delete_step(refund: bool, n: usize) {
+    let gk = any_gk(2);
+    let i0 = gk.verif_mem(user(0)).unwrap();
+    let i1 = gk.verif_mem(user(1)).unwrap();
+    let l0: usize = kani::any();
+    let l1: usize = kani::any();
+    let l2: usize = kani::any();
+    kani::assume(l0 <= MAX_BLOB && l1 <= MAX_BLOB && l2 <= MAX_BLOB);
+    // owner of the second deleted appointment is symbolic: same user or the other one
+    let o1 = if kani::any() { user(0) } else { user(1) };
+    {
+        let dbm = gk.dbm.lock().unwrap();
+        dbm.verif_push_appointment(uuid(0), ext_appointment(0, user(0), l0));
+        dbm.verif_push_appointment(uuid(1), ext_appointment(1, o1, l1));
+        dbm.verif_push_appointment(uuid(2), ext_appointment(2, user(1), l2)); // bystander row
+        dbm.verif_push_tracker(uuid(0), tracker(0, user(0), ConfirmationStatus::ConfirmedIn(kani::any())));
+    }
+    let mut r0 = slots_spec(l0) as u64;
+    let mut r1 = 0u64;
+    if n == 2 {
+        if o1 == user(0) {
+            r0 += slots_spec(l1) as u64;
+        } else {
+            r1 += slots_spec(l1) as u64;
+        }
+    }
+    // representation invariant: granted totals fit the counter
+    kani::assume(i0.available_slots as u64 + r0 <= u32::MAX as u64);
+    kani::assume(i1.available_slots as u64 + r1 <= u32::MAX as u64);
+    let v = if n == 2 { vec![uuid(0), uuid(1)] } else { vec![uuid(0)] };
+    gk.delete_appointments(v, refund);
+    let (w0, w1) = if refund {
+        (
+            UserInfo::new(i0.available_slots + r0 as u32, i0.subscription_start, i0.subscription_expiry),
+            UserInfo::new(i1.available_slots + r1 as u32, i1.subscription_start, i1.subscription_expiry),
+        )
+    } else {
+        (i0, i1)
+    };
+    assert!(gk.verif_mem(user(0)) == Some(w0) && gk.verif_mem(user(1)) == Some(w1),
+        "C07.refund: memory balance = old + slots of the refunded appointments (nothing without refund)");
+    assert!(gk.verif_db(user(0)) == Some(w0) && gk.verif_db(user(1)) == Some(w1),
+        "C07.refund: database balance = old + slots of the refunded appointments (nothing without refund)");
+    let dbm = gk.dbm.lock().unwrap();
+    assert!(!dbm.appointment_exists(uuid(0)) && !dbm.tracker_exists(uuid(0)), "C07.delete: the deleted appointment and its tracker are gone");
+    assert!(dbm.appointment_exists(uuid(1)) == (n != 2), "C07.delete: exactly the listed appointments are deleted");
+    assert!(dbm.appointment_exists(uuid(2)), "C07.delete: other appointments stay");
+    kani::cover!(o1 == user(0), "reach-same-owner");
+    kani::cover!(o1 == user(1), "reach-two-owners");
+    drop(dbm);
+    std::mem::forget(gk);
+}
+
+#[kani::proof]
+#[kani::unwind(6)]
+fn c07_k4_delete_refund_one() {
+    delete_step(true, 1);
+}
+#[kani::proof]
+#[kani::unwind(6)]
+fn c07_k4_delete_refund_two() {
+    delete_step(true, 2);
+}
+#[kani::proof]
+#[kani::unwind(6)]
+fn c07_k4_delete_norefund_one() {
+    delete_step(false, 1);
+}
+#[kani::proof]
+#[kani::unwind(6)]
+fn c07_k4_delete_norefund_two() {
+    delete_step(false, 2);
+}
+
+// ------------------------------------------------------------------------------------------------ C06
+
+/// K1: authentication succeeds iff the signature recovers to a registered key; it never changes state.
+/// `recover_pk` (zbase32 + SHA-256d + libsecp256k1) is replaced by a stub returning *any* result.
+#[kani::proof]
+#[kani::stub(teos_common::cryptography::recover_pk, crate::verif_stubs::recover_pk_any)]
+#[kani::unwind(6)]
+fn c06_k1_authenticate() {
+    let gk = any_gk(2);
+    let i0 = gk.verif_mem(user(0)).unwrap();
+    let i1 = gk.verif_mem(user(1)).unwrap();
+    let r = gk.authenticate_user(&[1u8, 2, 3], "sig");
+    let rec = unsafe { RECOVERED };
+    match rec {
+        Some(k) if k < 2 => assert!(r == Ok(user(k)), "C06.auth: a registered key authenticates as itself"),
+        _ => assert!(r.is_err(), "C06.auth: failed recovery or unregistered key is refused"),
+    }
+    assert!(gk.verif_mem(user(0)) == Some(i0) && gk.verif_mem(user(1)) == Some(i1)
+        && gk.verif_db(user(0)) == Some(i0) && gk.verif_db(user(1)) == Some(i1), "C06.auth: authentication changes nothing");
+    kani::cover!(r.is_ok(), "reach-ok");
+    kani::cover!(rec == Some(2), "reach-unregistered");
+    kani::cover!(rec.is_none(), "reach-bad-signature");
+    std::mem::forget(gk);
+}
